@@ -218,7 +218,6 @@ where
     /*@*/             && (*final(self)).rem() == (*old(self)).rem().drop_first(),
     {
         /*@*/ broadcast use axiom_pure_index;
-        /*@*/ let ghost s0 = *self;
         match self.tag {
             DiffTag::Equal => {
                 if self.old_i < self.old_range.end {
@@ -359,24 +358,88 @@ where
         {
             /*@*/ let ghost s0 = *self;
             loop
-            /*@*/     invariant self.wf(), self.old == s0.old, self.new == s0.new, self.rem_all() == s0.rem_all(),
+            /*@*/     invariant s0 == *old(self), self.wf(), self.old == s0.old, self.new == s0.new, self.rem_all() == s0.rem_all(),
             /*@*/     decreases self.ops.len(),
             {
+                /*@*/ let ghost cur0 = self.current_iter; let ghost rest0 = expand_all(self.ops@);
                 if let Some(ref mut iter) = self.current_iter {
                     if let Some(rv) = iter.next() {
+                        /*@*/ proof {
+                        /*@*/     let it0 = cur0.unwrap();
+                        /*@*/     assert(s0.rem_all() == it0.rem() + rest0);
+                        /*@*/     assert(self.rem_all() =~= s0.rem_all().drop_first());
+                        /*@*/     assert(s0.rem_all()[0] == it0.rem()[0]);
+                        /*@*/ }
                         return Some(rv);
                     }
                     self.current_iter.take();
+                    /*@*/ proof { assert(cur0.unwrap().rem().len() == 0); assert(self.rem_all() =~= s0.rem_all()); }
                 }
+                /*@*/ proof { assert(self.current_iter is None); assert(self.rem_all() == s0.rem_all()); assert(self.rem_all() =~= expand_all(self.ops@)); }
                 if let Some((first__r, rest)) = self.ops.split_first() { let first = *first__r;
                     self.current_iter = Some(ChangesIter::new(self.old, self.new, first));
                     self.ops = rest;
+                    /*@*/ proof { assert(self.rem_all() =~= s0.rem_all()); }
                 } else {
+                    /*@*/ proof { assert(self.ops@.len() == 0); assert(self.rem_all().len() == 0); }
                     return None;
                 }
             }
         }
     }
 //@@ end
+
+// ---------------------------------------------------------------------------------------------
+// consequences of the definitions (C13 wording): one change per consumed item; concatenation
+// ---------------------------------------------------------------------------------------------
+/// Equal: `len` changes; Delete: `old_len`; Insert: `new_len`; Replace: `old_len + new_len`
+pub proof fn lemma_expand_len(op: DiffOp)
+    ensures expand(op).len() == (if op is Equal { op_old_len(op) as int } else { op_old_len(op) + op_new_len(op) }),
+{}
+
+/// the k-th change of an op's expansion (indices increase by one; Replace: deletes first, then inserts)
+pub proof fn lemma_expand_index(op: DiffOp, k: int)
+    requires 0 <= k < expand(op).len(), op_wf(op),
+    ensures ({ let c = expand(op)[k];
+        match op {
+            DiffOp::Equal { old_index, new_index, len } =>
+                c.tag == ChangeTag::Equal && c.old_index == Some((old_index + k) as usize) && c.new_index == Some((new_index + k) as usize) && c.side_is_old && c.idx == old_index + k,
+            DiffOp::Delete { old_index, old_len, new_index } =>
+                c.tag == ChangeTag::Delete && c.old_index == Some((old_index + k) as usize) && c.new_index is None && c.side_is_old && c.idx == old_index + k,
+            DiffOp::Insert { old_index, new_index, new_len } =>
+                c.tag == ChangeTag::Insert && c.old_index is None && c.new_index == Some((new_index + k) as usize) && !c.side_is_old && c.idx == new_index + k,
+            DiffOp::Replace { old_index, old_len, new_index, new_len } =>
+                if k < old_len { c.tag == ChangeTag::Delete && c.old_index == Some((old_index + k) as usize) && c.new_index is None && c.side_is_old && c.idx == old_index + k }
+                else { c.tag == ChangeTag::Insert && c.old_index is None && c.new_index == Some((new_index + (k - old_len)) as usize) && !c.side_is_old && c.idx == new_index + (k - old_len) },
+        } }),
+{}
+
+pub proof fn lemma_expand_all_concat(a: Seq<DiffOp>, b: Seq<DiffOp>)
+    ensures expand_all(a + b) == expand_all(a) + expand_all(b),
+    decreases a.len()
+{
+    if a.len() == 0 {
+        assert(a + b =~= b);
+        assert(expand_all(a) + expand_all(b) =~= expand_all(b));
+    } else {
+        lemma_expand_all_concat(a.drop_first(), b);
+        assert((a + b).drop_first() =~= a.drop_first() + b);
+        assert((a + b)[0] == a[0]);
+        assert(expand_all(a + b) =~= expand_all(a) + expand_all(b));
+    }
+}
+
+pub proof fn lemma_expand_all_push(a: Seq<DiffOp>, op: DiffOp)
+    ensures expand_all(a.push(op)) == expand_all(a) + expand(op),
+{
+    lemma_expand_all_concat(a, seq![op]);
+    assert(a.push(op) =~= a + seq![op]);
+    let one = seq![op];
+    assert(one.len() == 1 && one[0] == op);
+    assert(one.drop_first() =~= Seq::<DiffOp>::empty());
+    assert(expand_all(one.drop_first()) =~= Seq::<ChangeSpec>::empty());
+    assert(expand_all(one) == expand(one[0]) + expand_all(one.drop_first()));
+    assert(expand_all(one) =~= expand(op));
+}
 
 } // verus!
